@@ -1,7 +1,8 @@
 ------------------------------ MODULE MC_Batch ------------------------------
 (* Bounded instance of Batch (C11): enumerates every case of the universe                        *)
 (*   tree (each Lua file absent / healthy / faulty(kind), at most MAXFAULTY faults)              *)
-(*   x input form x output form x fail-fast x configuration,                                     *)
+(*   x input form x output form x fail-fast x configuration (incl. the .luaurc configurations,   *)
+(*   whose trees carry nested .luaurc files and alias target directories),                       *)
 (* model-checks the internal theorems of the model on every case (an invariant violation here is *)
 (* an error of the MODEL, reported as a tool error) and emits every case as a `CASE {json}` line *)
 (* that the driver `dlv batch` renders into a real directory tree (S->I).                        *)
@@ -60,7 +61,12 @@ CaseJson(c) ==
    input |-> InputPath(c), output |-> OutPath(c), hasout |-> HasOutput(c),
    tree |-> SetToSeq(InitialTree(c)), reftree |-> SetToSeq(RefTree(c)),
    entries |-> [i \in E |-> [id |-> LuaId[i], src |-> Src(i), dst |-> IF UnderInput(c, i) THEN Dest(c, i) ELSE <<>>,
-                            state |-> c.st[i], work |-> UnderInput(c, i), faulty |-> Faulty(c, i), excluded |-> Excluded(c, i)]],
+                            state |-> c.st[i], work |-> UnderInput(c, i), faulty |-> Faulty(c, i), excluded |-> Excluded(c, i),
+                            healthy |-> Healthy(c, i),
+                            \* (information) the directory the alias `lib` must resolve to for this file
+                            alias |-> IF Rc(c) THEN AliasDir(c, i)[1] ELSE ""]],
+   \* per-directory context: the driver adds the explicit-order runs and the alone runs for these cases
+   rc |-> Rc(c), nalias |-> IF Rc(c) THEN Cardinality({AliasDir(c, i) : i \in Work(c)}) ELSE 0,
    kinds |-> SetToSeq(KindsOf(c)), nfaulty |-> Cardinality(FaultySet(c)), nhealthy |-> Cardinality(HealthySet(c))]
 
 \* always-true invariant that prints the case (S->I replay input)
